@@ -8,11 +8,22 @@ function makes on its parameters before the call) equals the hand-written
 table `stringsSigs` that the theorems in `Props.lean` are stated over; and the type switches
 of `object.AsBytes` / `object.AsString` regenerated from `object/typeconv.go` send every
 argument object to the same kind of case (look / read as a stream / refuse) as the tables
-`asBytesCases` / `asStringCases` of the model.
+`asBytesCases` / `asStringCases` of the model; and the inventory of the hand-written wrappers
+of `modules/regexp` (regexp.go, regexp_object.go) regenerated on this run — per wrapper: name, Go
+function, converters, order of the passed values, result constructor, optional argument and its
+default, error result handed back as an error value, and the fact `Body.direct`: the body is
+ONE call into package regexp on the converted arguments, its result put into the constructor,
+and nothing else — equals the reviewed table `rxSigs`.
 -/
 namespace Risor.C19
 
 theorem stringsSigs_tie : Risor.Generated.C19.stringsSigs = stringsSigs := by decide
+
+/-- every wrapper of modules/regexp as it is in the source on this run is the wrapper of the
+    reviewed table — in particular each body is the direct call (`direct_call` fact): a second
+    path to a result (a fast path, another library call, a branch on the pattern or on an
+    argument) makes the regenerated entry `Body.other` and this tie fail. -/
+theorem rxSigs_tie : Risor.Generated.C19.rxSigs = rxSigs := by decide
 
 /-- `object.AsBytes` as regenerated from object/typeconv.go on this run treats EVERY argument
     object — every value, every buffer, every file — the way the table `asBytesCases` does that
